@@ -66,7 +66,8 @@ pub fn j_forward(src: TimeScale, tai: i128, next_tai: Option<i128>, m: &EtDb, ou
                 out.viol("c07.round_trip", format!("X->TDB->X,{},{}", mag(rt_tdb), scale_name(src)), args, format!("within {RT_TOL} ns"), format!("{rt_tdb} ns"));
                 return;
             }
-            if acc.0 != a_et || acc.1 != a_tdb || (acc.2 - a_et as f64 / 1e9).abs() > 1e-4 || (acc.3 - a_tdb as f64 / 1e9).abs() > 1e-4 {
+            let f_ok = crate::oracle::ulp::within_ulps(acc.2, a_et, NS_S, 8, 1.0).0 && crate::oracle::ulp::within_ulps(acc.3, a_tdb, NS_S, 8, 1.0).0;
+            if acc.0 != a_et || acc.1 != a_tdb || !f_ok {
                 out.viol("c07.forward", "accessor-differs-from-to_time_scale".into(), args, format!("{a_et} / {a_tdb}"), format!("{acc:?}"));
                 return;
             }
